@@ -66,4 +66,25 @@ def after_build(obj):
             rival(expect, inp)
         except Exception:  # noqa: BLE001 - raising calls are part of the rival's life
             pass
+    adopt(obj)
+    return True
+
+
+ADOPTABLE = ('StringGrader', 'FormulaGrader', 'NumericalGrader', 'MatrixGrader')
+
+
+def adopt(obj):
+    """The object under test also serves, first, as the subgrader of two list graders built with debug=True (an author may
+    use one grader object stand-alone and inside a list).  What the parents switch on for THEIR calls (debug output, raw
+    errors) must not stick to the subgrader: a seeded change let a parent's debug flag be 'inherited' by the subgrader
+    object, which then let RecursionError escape and kept raw line breaks when called on its own with debug off."""
+    if type(obj).__name__ not in ADOPTABLE:
+        return False
+    import mitxgraders as mg
+    for make, inp in ((lambda: mg.SingleListGrader(answers=['1', '2'], subgrader=obj, debug=True), '1, 2'),
+                      (lambda: mg.ListGrader(answers=['1', '2'], subgraders=obj, debug=True), ['2', '1'])):
+        try:
+            make()(None, inp)
+        except Exception:  # noqa: BLE001 - parents that cannot be built / raising calls are part of the history
+            pass
     return True
